@@ -135,3 +135,15 @@ Lemma gen_serve_seq_is_ref le fuel rs is c :
   let '(hs, f, _) := serve_seq gen_dispatch_cond gen_method_reject le gen_router_wrap fuel rs is c in
   (hs, f) = seq_ref gen_dispatch_cond gen_method_reject le fuel rs is c.
 Proof. rewrite gen_router_wrap_ok. apply serve_seq_is_ref. Qed.
+
+(** * Round 3 (seeded change C20-g): what the context hands out is a copy *)
+
+Definition acc_freshb (a : acc_kind) : bool := match a with AccFresh => true | _ => false end.
+
+(** Every exported accessor of [C] with a slice or map result returns a
+    freshly allocated value. *)
+Lemma gen_ctx_accessors_fresh : forallb (fun na => acc_freshb (snd na)) gen_ctx_accessors = true.
+Proof. vm_compute. reflexivity. Qed.
+
+Lemma gen_relroute_fresh : acc_of relroute_name gen_ctx_accessors = AccFresh.
+Proof. vm_compute. reflexivity. Qed.
